@@ -294,6 +294,11 @@ func main() {
 		ltg := addL("LTg", taggedTy(), false)
 		lks := addL("LKS", ty.St(f("N", b("int")), f("F", b("string")), f("G", b("string"))), false)
 		lur := addL("LUR", ty.St(f("V", b("int")), f("next", ty.P(ty.N(len(env.Decls))))), true)
+		// a comparable struct with a blank field as map KEY next to a predeclared value type (%#v does not write
+		// such a key as valid Go: the key must be written by the generated function whatever the value type is)
+		b3u := ty.St(f("A", b("int")), f("C", b("string")))
+		b3u.Blanks = map[int]string{1: "int32"}
+		b3 := addL("LB3", b3u, false)
 		localTypes = []*ty.Ty{
 			ty.N(mark), ty.P(ty.N(mark)), ty.Sl(ty.N(mark)), ty.Ar(2, ty.N(mark)), ty.M(b("int8"), ty.N(mark)), ty.M(ty.N(mark), b("int")),
 			ty.N(bl), ty.P(ty.N(bl)), ty.Sl(ty.N(bl)), ty.M(b("int"), ty.N(bl)), ty.N(b2), ty.P(ty.N(b2)), ty.Sl(ty.P(ty.N(b2))),
@@ -305,6 +310,7 @@ func main() {
 			ty.St(f("G", ty.N(lg)), f("P", ty.P(ty.N(lg))), f("E", ty.N(lemg)), f("Q", ty.P(ty.N(lemg))), f("R", ty.N(lrn)), f("S", ty.P(ty.N(lrn)))),
 			ty.N(lg), ty.N(lemg), ty.P(ty.N(lemg)), ty.Sl(ty.N(lemg)), ty.N(lrn), ty.Sl(ty.N(lrn)),
 			ty.N(ltg), ty.P(ty.N(ltg)), ty.Sl(ty.N(ltg)), ty.M(b("int"), ty.N(ltg)), ty.M(ty.N(lks), b("string")), ty.M(ty.N(lks), ty.N(mark)),
+			ty.M(ty.N(b3), b("string")), ty.M(ty.N(b3), b("int64")), ty.St(f("K", ty.M(ty.N(b3), b("bool")))),
 			ty.N(lu), ty.P(ty.N(lu)), ty.Sl(ty.N(lu)), ty.N(lur), ty.P(ty.N(lur)), ty.M(b("string"), ty.N(lur)), ty.St(f("U", ty.N(lu)), f("R", ty.P(ty.N(lur)))),
 		}
 		// local types first: they must live in q0, the other types are spread around them
